@@ -175,6 +175,26 @@ CLAIMED["C17"] = dict(
          "signals are assumptions of the model (EOF exactly at exit), sampled with real children on the OS scheduler; byte-level "
          "line splitting is checked on real children only.")
 
+CLAIMED["C03"] = dict(
+    text="PARTIAL. Lean 4 theorems over every reachable state of a heap model of Signal.__or__/or_signal/OrSignal with reference "
+         "counting (any number of threads, nested and shared operands, dropping references, triggering, wait(till=), every "
+         "interleaving at the granularity of one Signal operation): the operands of a live, untriggered OR composite stay alive "
+         "and cannot be collected, and its operand list is intact until it is triggered or dies. The equivalence c <-> x or y at "
+         "quiescence, the constants (None/True/False/DONE/NEVER) and the release of waiters are checked on the real code by "
+         "monitors and by trace acceptance of every step, not yet theorems.",
+    design="§5 C03", technique="Lean 4 inductive invariant over a heap with reference counting + trace acceptance of the real operators under CPython refcounting + monitors",
+    note="Trusted: Lean kernel + standard axioms; model Composite.lean tied to signals.py by trace acceptance; then/go/remove_then "
+         "atomic (C01/C02 on M1); CPython reference counting and weakref callback order are assumptions; gc disabled.")
+
+CLAIMED["C04"] = dict(
+    text="PARTIAL. Same model. Lean 4 theorems for every reachable state: every operand of a live, untriggered AND composite is "
+         "alive and not collectable, the AndSignals operand list is intact and the object is referenced from the composite (the "
+         "repaired wiring) - the part of the property the pinned tree violated: (a | b) & c never became true because a | b was "
+         "collected at once; fixed in /repo. The countdown equivalence c <-> x and y at quiescence and the constants are checked "
+         "on the real code by monitors and trace acceptance, not yet theorems.",
+    design="§5 C04, §7", technique="Lean 4 inductive invariant over a heap with reference counting + trace acceptance + monitors",
+    note="Same trusted base as C03.")
+
 PENDING = {}
 
 
